@@ -6,6 +6,17 @@ from vlib import VERIF
 SPEC = os.path.join(VERIF, 'spec', 'proxy')
 
 
+PARENT_TABLE = {}        # scenario number -> responder, for the scenarios that go through the two parents
+
+
+async def parent_responder(q, oc):
+    r = PARENT_TABLE.get(q.target.rstrip('/').rsplit('/', 1)[-1])
+    if r is None:
+        await oc.send(peers.response_head(404, 'NF', [('Content-Length', '0')]))
+        return False
+    return await r(q, oc)
+
+
 def sizes_for(units, rnd, big):
     out = []
     for _ in range(units):
@@ -14,7 +25,7 @@ def sizes_for(units, rnd, big):
     return out
 
 
-async def realise(ctx, sq, rec_all, n, scen, rnd, big):
+async def realise(ctx, sq, rec_all, n, scen, rnd, big, retry502=False):
     par = scen['par']
     rec = peers.Rec()
     usizes = sizes_for(par['units'], rnd, big)
@@ -31,6 +42,10 @@ async def realise(ctx, sq, rec_all, n, scen, rnd, big):
 
     async def responder(q, oc):
         produced['attempts'] += 1
+        if retry502 and produced['attempts'] == 1:
+            # the first destination answers with a complete, re-forwardable error; Squid discards it and tries the next address
+            await oc.send(peers.response_head(502, 'Bad Gateway', [('Content-Length', '9'), ('Date', peers.http_date()), ('X-Verif-First', '1')]) + b'not here\n')
+            return False
         try:
             return await responder2(q, oc)
         finally:
@@ -92,7 +107,12 @@ async def realise(ctx, sq, rec_all, n, scen, rnd, big):
         return False
 
     o = await peers.Origin(rec, responder).start()
+    o2 = None
     url = 'http://127.0.0.1:%d/c01/%d' % (o.port, n)
+    if retry502:
+        # two cache_peer parents (shared by all such scenarios, see run()) serve /c01r/<n>: whichever is asked first says 502
+        PARENT_TABLE[str(n)] = responder
+        url = 'http://127.0.0.1:%d/c01r/%d' % (o.port, n)
     ver = 'HTTP/1.1' if par['cver'] == 11 else 'HTTP/1.0'
     try:
         r = await peers.simple_get(rec, sq.port, url, vid=n, version=ver, timeout=15.0)
@@ -102,6 +122,7 @@ async def realise(ctx, sq, rec_all, n, scen, rnd, big):
             pass
     finally:
         await o.stop()
+        PARENT_TABLE.pop(str(n), None)
     squid_err = r.head is None or r.head.has('X-Squid-Error')
     intact, bad = peers.project_body(r.body, version)
     ev = [{'e': 'Produce', 'status': status, 'framing': par['oframing'] if status not in (204, 304) else 'none',
@@ -109,19 +130,27 @@ async def realise(ctx, sq, rec_all, n, scen, rnd, big):
           {'e': 'Consume', 'status': r.status if r.status is not None else 0, 'framing': r.framing or 'none',
            'declared': r.declared if r.declared is not None else -1, 'len': len(r.body), 'intact': bool(intact),
            'complete': bool(r.complete), 'squidError': bool(squid_err), 'cver': par['cver']}]
-    return {'ev': ev, 'scen': par, 'sizes': usizes, 'seg': seg if seg != 'firstk' else 'firstk%d' % firstk, 'pred_cframing': scen['cframing'], 'first_bad': bad, 'n': n}
+    return {'ev': ev, 'scen': par, 'sizes': usizes, 'seg': seg if seg != 'firstk' else 'firstk%d' % firstk, 'pred_cframing': scen['cframing'], 'first_bad': bad, 'n': n, 'retry502': bool(retry502), 'attempts': produced['attempts']}
 
 
-async def main_async(ctx, sq, scens, rnd):
+async def main_async(ctx, sq, scens, rnd, parent_ports):
     out = []
     batch = []
+    parents = [await peers.Origin(peers.Rec(), parent_responder, name='pa%d' % i).start(port=pt) for i, pt in enumerate(parent_ports)]
     n = 0
     for rep in range(10 if ctx.thorough else 1):
         for sc in scens:
             n += 1
             big = (rnd.random() < (0.25 if ctx.thorough else 0.04)) and sc['par']['units'] <= 2
             batch.append(realise(ctx, sq, None, n, sc, random.Random(ctx.seed * 100003 + n), big))
+    # the same after a re-forwarded error: the first address of a two-address origin answers 502, the second plays the scenario
+    cand = [sc for sc in scens if sc['par']['status'] == 200 and sc['par']['units'] >= 1]
+    rnd.shuffle(cand)
+    for j, sc in enumerate(cand[:(40 if ctx.thorough else 12)]):
+        batch.append(realise(ctx, sq, None, 70000 + j, sc, random.Random(ctx.seed * 389 + j), False, retry502=True))
     res = await escen.gather_limited(batch, limit=10)
+    for p in parents:
+        await p.stop()
     return res
 
 
@@ -141,10 +170,13 @@ def run(ctx):
                 seen[k] = seen.get(k, 0) + 1
                 keep.append(s)
         scens = keep
-    sq = squidctl.Squid(ctx, tree, cache_mem='64 MB', conf_extra='maximum_object_size_in_memory 4 MB\nread_timeout 10 seconds\n')
+    pp = [squidctl.free_port(), squidctl.free_port()]
+    sq = squidctl.Squid(ctx, tree, cache_mem='64 MB', conf_extra='maximum_object_size_in_memory 4 MB\nread_timeout 10 seconds\n' +
+                        'cache_peer 127.0.0.1 parent %d 0 no-query no-digest no-netdb-exchange name=c01pa\ncache_peer 127.0.0.1 parent %d 0 no-query no-digest no-netdb-exchange name=c01pb\n' % tuple(pp) +
+                        'acl c01r urlpath_regex ^/c01r/\ncache_peer_access c01pa allow c01r\ncache_peer_access c01pb allow c01r\nnever_direct allow c01r\nalways_direct allow !c01r\n')
     sq.start()
     try:
-        hist = asyncio.run(main_async(ctx, sq, scens, rnd))
+        hist = asyncio.run(main_async(ctx, sq, scens, rnd, pp))
         alive = sq.alive()
     finally:
         sq.stop()
@@ -163,6 +195,8 @@ def run(ctx):
                 ctx.drift.append('client framing %s, RelayImpl predicts %s for %s' % (c['framing'], h['pred_cframing'], json.dumps(h['scen'])))
     ctx.cov['impl_distinct'] = len({json.dumps([h['scen'], h['sizes'], h['seg']], sort_keys=True) for h in hist})
     ctx.cov['scenario_classes'] = len(scens)
+    ctx.cov['after_a_reforwarded_502'] = sum(1 for h in hist if h.get('retry502'))
+    ctx.cov['after_a_reforwarded_502_second_attempt_made'] = sum(1 for h in hist if h.get('retry502') and h.get('attempts', 0) >= 2)
     ctx.cov['squid_errors'] = sum(1 for h in hist if h['ev'][1]['squidError'])
     ctx.cov['completed_bodies'] = sum(1 for h in hist if h['ev'][1]['complete'] and h['ev'][1]['len'] > 0)
     ctx.cov['bytes_relayed'] = sum(h['ev'][1]['len'] for h in hist)
